@@ -163,6 +163,34 @@ func genG04Creds(repo string, w *Out) error {
 		return err
 	}
 
+	// ---- proxy_conn.go handle(): requests read from an intercepted TLS session are forced to https;
+	//      is that done BEFORE the request modifiers (setBasicAuth looks at req.URL.Scheme)?
+	pcf, err := Parse(repo, "internal/martian/proxy_conn.go")
+	if err != nil {
+		return err
+	}
+	hf, err := pcf.Func("proxyConn.handle")
+	if err != nil {
+		return err
+	}
+	forceIdx, modIdx, fixIdx := -1, -1, -1
+	for i, st := range hf.Body.List {
+		src := pcf.Src(st)
+		switch {
+		case src == "p.fixRequestScheme(req)":
+			fixIdx = i
+		case strings.HasPrefix(src, "if p.mitm {") && strings.Contains(src, `req.URL.Scheme = "https"`):
+			forceIdx = i
+		case strings.HasPrefix(src, "if err := p.modifyRequest(req); err != nil {"):
+			modIdx = i
+		}
+	}
+	if modIdx < 0 || fixIdx < 0 || fixIdx > modIdx {
+		return fmt.Errorf("proxyConn.handle: fixRequestScheme / modifyRequest statements not found in the known order (fix=%d modify=%d)", fixIdx, modIdx)
+	}
+	w.DefBool("mitm_forces_https", forceIdx >= 0)
+	w.DefBool("mitm_https_before_modifiers", forceIdx >= 0 && fixIdx < forceIdx && forceIdx < modIdx)
+
 	// ---- proxy_connect.go: what is handed to dialvia
 	pcn, err := Parse(repo, "internal/martian/proxy_connect.go")
 	if err != nil {
